@@ -405,3 +405,21 @@ package server
 //@   locks C25
 //@   noblock
 //@   guards C26
+
+// BMP: the neighbor list of a monitored router. Disposing a neighbor flushes
+// its tables with the list lock held, so the list lock comes before them.
+//@ locklevel neighborManager.neighborsMu 5
+//@ guarded neighborManager.neighbors by neighborsMu
+//@ contract (*neighborManager).addNeighbor, (*neighborManager).getNeighbor, (*neighborManager).neighborDown, (*neighborManager).disposeAll, (*neighborManager).list
+//@   props C25 C26
+//@   nosafety
+//@   acquires 5
+//@   locks C25
+//@   guards C26
+//@ contract (*neighborManager)._neighborDown
+//@   props C25 C26
+//@   nosafety
+//@   requires verif_wheld(&nm.neighborsMu)
+//@   acquires 6
+//@   locks C25
+//@   guards C26
